@@ -190,8 +190,8 @@ pub fn property() -> Property {
                parameter sets; distinct by root.",
         assumptions: &["harness SHA-256 / fast merkle root as in C18"],
         subs: vec![
-            Sub { name: "full_params", kind: Kind::Tape { max_len: 2500, quick: 40_000, thorough: 800_000, f: full_params } },
-            Sub { name: "headers", kind: Kind::Tape { max_len: 2500, quick: 40_000, thorough: 800_000, f: any_params_and_headers } },
+            Sub { name: "full_params", kind: Kind::Tape { max_len: 2500, quick: 480_000, thorough: 4_000_000, f: full_params } },
+            Sub { name: "headers", kind: Kind::Tape { max_len: 2500, quick: 480_000, thorough: 4_000_000, f: any_params_and_headers } },
         ],
         known: vec![],
     }
